@@ -46,7 +46,8 @@ class LoopSpec:
     """
 
     def __init__(self, inv=None, havoc=None, unroll=None, ghost_iter=None, variant=None, after=None, before=None,
-                 on_break=None, ghost_vars=None):
+                 on_break=None, ghost_vars=None, writes=None):
+        self.writes = list(writes or [])
         self.inv, self.havoc, self.unroll, self.ghost_iter, self.variant, self.after = inv, dict(havoc or {}), unroll, ghost_iter, variant, after
         self.before, self.on_break, self.ghost_vars = before, on_break, ghost_vars
 
